@@ -1,6 +1,7 @@
 #!/bin/sh
 # development helper: apply a behaviour-preserving patch and run ALL checks (quick) against it: none may alarm
 patch="$1"; shift
+home=$(cd "$(dirname "$0")/.." && pwd)
 wt=/tmp/wt_neutral_$$
 export GOFLAGS=-mod=mod GOPROXY=off GOSUMDB=off GOTOOLCHAIN=local
 git -C /repo worktree add -f $wt HEAD >/dev/null 2>&1
@@ -8,7 +9,7 @@ git -C $wt apply "$patch" || { echo "patch does not apply"; git -C /repo worktre
 (cd $wt && go build ./... && go test -vet=off -count=1 ./... >/dev/null 2>&1) && echo "builds, tests pass" || echo "BUILD OR TESTS FAIL"
 echo "== $(basename $patch)"
 for p in ${@:-C01 C02 C03 C04 C05 C06 C07 C08 C09 C10 C11 C12 C13 C14 C15 C16 C17 C18 C19 C20}; do
-  VERIF_REPO=$wt /verif/check $p --tier quick 2>&1 | grep -E "VIOLATION|quick:" | grep -v "violations=0" | cut -c1-160
+  VERIF_REPO=$wt $home/check $p --tier quick 2>&1 | grep -E "VIOLATION|quick:" | grep -v "violations=0" | cut -c1-160
 done
 echo "== done"
 git -C /repo worktree remove --force $wt; git -C /repo worktree prune
